@@ -5,3 +5,6 @@ package kvh
 import "github.com/XiXi-2024/xixi-kv/datafile"
 
 func poisonBlockPool(n int) { datafile.VerifPoisonBlockPool(n) }
+
+// FillBlockPool leaves content in up to n pooled block buffers of the engine (see datafile.VerifFillBlockPool).
+func FillBlockPool(n int, content []byte) { datafile.VerifFillBlockPool(n, content) }
